@@ -39,7 +39,11 @@ def instances(pid, n=30):
                 post = post.rstrip() + ','
             out.append((pre + '*' + body + '*' + post, 0, '<p>%s<em>%s</em>%s</p>' % (esc(pre), esc(body), esc(post)), 'theorem-instance:C07_emphasis_document'))
         elif pid == 'C09':
-            if rng.random() < 0.5:   # C09_fenced_code_verbatim: any content
+            r9 = rng.random()
+            if r9 < 0.3:             # C09_indented_verbatim
+                body = (first_then(rng, 0, 16).rstrip() or 'x')
+                out.append((' ' * rng.randint(1, 5) + body, rng.choice([0, 1, 3, 15]), '<pre><code>%s</code></pre>' % esc(body), 'theorem-instance:C09_indented_verbatim'))
+            elif r9 < 0.65:          # C09_fenced_code_verbatim: any content
                 lines = [text(rng, WILD, 0, 24) for _ in range(rng.randint(1, 5))]
                 lines = [l for l in lines if l != '``'] or ['x']
                 src = '``\n' + '\n'.join(lines) + '\n``'
